@@ -3,8 +3,8 @@ to real Python packages, and a world that runs top-level operations on the real 
 the Lean model (`mmodel runner`).
 
 program = {"fns": {id: {"explicit": bool, "stmts": [...], "raise": [mod, rem, cls, msg], "const": int}}}
-stmt    = ["call", g, off, ctx, ignore, prevent, catch, hidden] | ["batch", g, [offs], ctx, ignore, prevent, raise_first, hidden]
-          | ["res", h]            ctx = "i" (inherit) | int (0 = with_context_args({}))
+stmt    = ["call", g, off, ctx, ignore, prevent, catch, hidden, guard] | ["batch", g, [offs], ctx, ignore, prevent, raise_first, hidden, guard]
+          | ["res", h]            ctx = "i" (inherit) | int (0 = with_context_args({}));  guard = [m, r]: only when a % m == r ([0,0] = always)
 Functions only call functions with a smaller id (call DAG), so every run terminates.
 """
 import importlib
@@ -48,6 +48,9 @@ def ctx_id(ca):
 
 
 def cls_of(e):
+    # two rebuildable classes that share their name ("Error") but live in different modules
+    if type(e).__name__ == "Error":
+        return {"shutil": 3, "configparser": 4}.get(type(e).__module__, 98)
     return CLS.get(type(e).__name__, 99)
 
 
@@ -85,7 +88,7 @@ def show_exc(e):
 # ------------------------------------------------------------------------------------------------
 
 def gen_program(rng, nfns=None, ctx_rate=0.25, exc_rate=0.3, batch_rate=0.25, hidden_rate=0.06, res_rate=0.15,
-                flag_rate=0.1, prevent_rate=0.0):
+                flag_rate=0.1, prevent_rate=0.0, guard_rate=0.25):
     nfns = nfns or rng.randint(2, 6)
     fns = {}
     for f in range(1, nfns + 1):
@@ -99,16 +102,17 @@ def gen_program(rng, nfns=None, ctx_rate=0.25, exc_rate=0.3, batch_rate=0.25, hi
                 ign = rng.random() < flag_rate
                 prev = rng.random() < prevent_rate
                 hidden = rng.random() < hidden_rate
+                guard = [2, rng.choice([0, 1])] if rng.random() < guard_rate else [0, 0]
                 if rng.random() < batch_rate:
                     offs = [rng.choice([0, 0, 1, 2]) for _ in range(rng.randint(0, 3))]
-                    stmts.append(["batch", g, offs, ctx, ign, prev, rng.random() < 0.3, hidden])
+                    stmts.append(["batch", g, offs, ctx, ign, prev, rng.random() < 0.3, hidden, guard])
                 else:
-                    stmts.append(["call", g, rng.choice([0, 0, 1, 2]), ctx, ign, prev, rng.random() < 0.5, hidden])
+                    stmts.append(["call", g, rng.choice([0, 0, 1, 2]), ctx, ign, prev, rng.random() < 0.5, hidden, guard])
                 if rng.random() < res_rate:
                     stmts.append(["res", rng.randint(1, 3)])
         rs = [0, 0, 0, 0]
         if rng.random() < exc_rate:
-            rs = [rng.choice([2, 3]), rng.choice([0, 1]), rng.choice([0, 0, 1, 2]), rng.randint(1, 9)]
+            rs = [rng.choice([2, 3]), rng.choice([0, 1]), rng.choice([0, 0, 1, 2, 3, 4]), rng.randint(1, 9)]
         fns[f] = dict(explicit=rng.random() < 0.15, stmts=stmts, const=rng.randint(0, 9))
         fns[f]["raise"] = rs
     return dict(fns=fns)
@@ -123,7 +127,7 @@ def fix(prog):
 def declared_pairs(prog):
     """(f, g): g reachable from f through visible (non-hidden) references"""
     fix(prog)
-    vis = {f: {s[1] for s in d["stmts"] if s[0] in ("call", "batch") and not s[-1]} for f, d in prog["fns"].items()}
+    vis = {f: {s[1] for s in d["stmts"] if s[0] in ("call", "batch") and not s[7]} for f, d in prog["fns"].items()}
     out = set()
     for f in vis:
         seen, todo = set(), list(vis[f])
@@ -145,10 +149,10 @@ def model_lines(prog):
         lines.append("fn %d %d %d %d %d %d %d" % (f, int(d["explicit"]), r[0], r[1], r[2], r[3], d["const"]))
         for s in d["stmts"]:
             if s[0] == "call":
-                lines.append("st %d call %d %d %s %d %d %d" % (f, s[1], s[2], s[3], int(s[4]), int(s[5]), int(s[6])))
+                lines.append("st %d call %d %d %s %d %d %d %d %d" % (f, s[1], s[2], s[3], int(s[4]), int(s[5]), int(s[6]), s[8][0], s[8][1]))
             elif s[0] == "batch":
-                lines.append("st %d batch %d %s %s %d %d %d" % (f, s[1], ",".join(map(str, s[2])) or "-", s[3], int(s[4]),
-                                                               int(s[5]), int(s[6])))
+                lines.append("st %d batch %d %s %s %d %d %d %d %d" % (f, s[1], ",".join(map(str, s[2])) or "-", s[3], int(s[4]),
+                                                                     int(s[5]), int(s[6]), s[8][0], s[8][1]))
             else:
                 lines.append("st %d res %d" % (f, s[1]))
     for f, g in declared_pairs(prog):
@@ -178,6 +182,8 @@ def render(prog, modname):
          "from twosigma.memento.resource import ResourceHandle",
          "from twosigma.memento.resource_function import ResourceFunction",
          "import progs",
+         "import shutil",
+         "import configparser",
          "",
          "class Opaque(Exception):",
          "    def __init__(self, a, b):",
@@ -195,21 +201,30 @@ def render(prog, modname):
             if st[0] == "res":
                 L.append('    vres("r%d")' % st[1])
             elif st[0] == "call":
-                _, g, off, ctx, ign, prev, catch, hidden = st
+                _, g, off, ctx, ign, prev, catch, hidden, guard = st
+                ind = "    "
+                if guard[0]:
+                    L.append("    if a >= 0 and a %% %d == %d:" % (guard[0], guard[1]))
+                    ind = "        "
                 call = "%s(a + %d)" % (_target(g, ctx, ign, prev, hidden), off)
                 if catch:
-                    L += ["    try:", "        _r = %s" % call, "        s += 0 if _r is None else _r",
-                          "    except Exception as _e:", "        s += -1000 - progs.handler_cls(_e)"]
+                    L += [ind + "try:", ind + "    _r = %s" % call, ind + "    s += 0 if _r is None else _r",
+                          ind + "except Exception as _e:", ind + "    s += -1000 - progs.handler_cls(_e)"]
                 else:
-                    L += ["    _r = %s" % call, "    s += 0 if _r is None else _r"]
+                    L += [ind + "_r = %s" % call, ind + "s += 0 if _r is None else _r"]
             else:
-                _, g, offs, ctx, ign, prev, rf, hidden = st
-                L.append("    _rs = %s.call_batch([{'a': a + o} for o in %r], raise_first_exception=%s)" % (
+                _, g, offs, ctx, ign, prev, rf, hidden, guard = st
+                ind = "    "
+                if guard[0]:
+                    L.append("    if a >= 0 and a %% %d == %d:" % (guard[0], guard[1]))
+                    ind = "        "
+                L.append(ind + "_rs = %s.call_batch([{'a': a + o} for o in %r], raise_first_exception=%s)" % (
                     _target(g, ctx, ign, prev, hidden), tuple(offs), "True" if rf else "False"))
-                L.append("    s += progs.sum_slots(_rs)")
+                L.append(ind + "s += progs.sum_slots(_rs)")
         m, r, cls, msg = d["raise"]
         if m:
-            exc = {0: 'ValueError("zq%dzq")' % msg, 1: 'Opaque("zq%dzq", 1)' % msg, 2: 'NonMemoizedException("zq%dzq")' % msg}[cls]
+            exc = {0: 'ValueError("zq%dzq")' % msg, 1: 'Opaque("zq%dzq", 1)' % msg, 2: 'NonMemoizedException("zq%dzq")' % msg,
+                   3: 'shutil.Error("zq%dzq")' % msg, 4: 'configparser.Error("zq%dzq")' % msg}[cls]
             L += ["    if a >= 0 and a %% %d == %d:" % (m, r), "        raise %s" % exc]
         L.append("    return s + %d" % d["const"])
         L.append("")
